@@ -1,4 +1,5 @@
 import os, time, vf
+from concurrent.futures import ThreadPoolExecutor
 PID = "C15"
 D = vf.VERIF + "/checks/C15/"
 STUB = [vf.VERIF + "/engine/sched/log_stub.cpp"]
@@ -6,10 +7,60 @@ NET = ["network/dns_request.cpp", "network/udp_socket.cpp", "network/socket_fd.c
        "util/serializer.cpp", "util/string.cpp", "util/fd.cpp"]
 def builds():
     srcs = vf.module_sources("event", *NET)
-    pa = vf.build("C15/parser_asan", [D + "parser_harness.cpp"], srcs, mode="asan", plain_srcs=STUB)
-    pp = vf.build("C15/parser_plain", [D + "parser_harness.cpp"], srcs, mode="plain", plain_srcs=STUB)
-    return pa, pp
+    with ThreadPoolExecutor(3) as ex:
+        fa = ex.submit(vf.build, "C15/parser_asan", [D + "parser_harness.cpp"], srcs, mode="asan", plain_srcs=STUB)
+        fp = ex.submit(vf.build, "C15/parser_plain", [D + "parser_harness.cpp"], srcs, mode="plain", plain_srcs=STUB)
+        fl = ex.submit(vf.build, "C15/lookup_asan", [D + "lookup_harness.cpp"], srcs, mode="asan", plain_srcs=STUB)
+        return fa.result(), fp.result(), fl.result()
+def shards(tag, exe, mode, n, *extra):
+    return [("%s:%d" % (tag, i), [exe, mode, str(i), str(n)] + [str(x) for x in extra]) for i in range(n)]
 def main(tier, args):
     t0 = time.time()
-    pa, pp = builds()
-    print(pa, pp)
+    pa, pp, lk = builds()
+    quick = tier == "quick"
+    dl = 75 if quick else 1200
+    if os.environ.get("VERIF_DEADLINE_S"):
+        dl = min(dl, max(5.0, float(os.environ["VERIF_DEADLINE_S"]) - (time.time() - t0) - 5))
+    jobs = []
+    if quick:
+        jobs += shards("plain-tail3s", pp, "tail3s", 12)                 # id + every 2-byte flags + third byte in {00,01,3f,40,c0,ff}
+        jobs += shards("asan-tail2", pa, "tail", 8, 2)                    # id + every byte string of length <= 2
+        jobs += shards("plain-tail2", pp, "tail", 4, 2)
+        jobs += shards("asan-struct", pa, "struct", 4)
+        jobs += shards("plain-struct", pp, "struct", 1)
+        jobs += [("lookups:%s" % e, [lk, e, "6", "2", "2"]) for e in ("epoll", "select")]
+        tail_rule = "length <=2 (both builds) and length 3 with the third byte in {00,01,3f,40,c0,ff} (plain build)"
+        ldepth = "depth 6, 2 lookups, 2 servers"
+    else:
+        jobs += shards("plain-tail3", pp, "tail", 16, 3)                  # id + every byte string of length <= 3 (16.8 M datagrams)
+        jobs += shards("asan-tail3s", pa, "tail3s", 16)
+        jobs += shards("asan-tail2", pa, "tail", 8, 2)
+        jobs += shards("asan-struct2", pa, "struct", 16, "pairs")         # + every pair of bytes replaced
+        jobs += shards("plain-struct2", pp, "struct", 8, "pairs")
+        jobs += [("lookups:%s" % e, [lk, e, "12", "2", "2"]) for e in ("epoll", "select")]
+        jobs += [("lookups:epoll-3lookups", [lk, "epoll", "8", "3", "2"]), ("lookups:epoll-3servers", [lk, "epoll", "10", "2", "3"])]
+        tail_rule = "length <=3 (plain build; ASan build: length <=2 and length 3 with the third byte in {00,01,3f,40,c0,ff})"
+        ldepth = "depth 12 (fixpoint expected) with 2 lookups / 2 servers, depth 8 with 3 lookups, depth 10 with 3 servers"
+    if args.only:
+        jobs = [j for j in jobs if j[0].split(":")[0] == args.only or j[0] == args.only]
+    res = vf.Result(); os.makedirs(vf.BUILD + "/C15", exist_ok=True); log = open(vf.BUILD + "/C15/log.txt", "w")
+    env = {"C15_DEADLINE_MONO": "%.1f" % (time.monotonic() + dl), "VERIF_DEADLINE_S": str(dl)}
+    vf.run_procs(res, jobs, env=env, log=log)
+    vf.finish(PID, tier, res, t0,
+              rule="(I, reply parser) a real lookup is outstanding on a real DnsRequest (id 0xA5A5); every datagram goes through the protected onUdpRecv in a worker child on a 256 KiB thread stack, "
+                   "twice on equal object states: dead stack painted 0x00 / 0xA5 (48 KiB) immediately before the call; g++ -O1 plain build and ASan+UBSan build. "
+                   "Datagrams: 4 base replies (A; CNAME+A with compression; TXT+A; 3A+NS) x {every truncation offset; qd/an/ns/ar count in {0,1,real,real+1,255,65535}; every compression pointer -> every offset 0..len+1 "
+                   "and every loop of two; every byte replaced by each of {00,01,3f,40,c0,ff}%s}; matching id + every byte string of %s. "
+                   "Oracle: worker survives (no stack exhaustion = bounded recursion, no ASan/UBSan report, progress within 20 s), identical callback/status/addresses/ttls/names under both paints, datagram id matches, "
+                   "every reported address/name is in the set an independent generous decoder (RFC 1035 + readings L1-L6, common.h) extracts and not more records than it can frame; agreement with a strict decoder is recorded as outcome. "
+                   "(H, lookups) BFS over histories of request(domain)/cancel/reply(lookup, server, kind in ok|servfail|nxdomain|formerr|query|unknown-id|ok-wrong-question)/tick(+1 s virtual, one loop pass), %s, epoll and select; "
+                   "replies stay enabled (duplicates, any order); canonical state = lookup table + response counts + timeout wheel + timer/socket-event enabled + id counter + model; "
+                   "oracle after every op: callbacks exactly as the reference model says (once, first acceptable reply / error status / timeout at tick 5, never after cancel, nothing for ignored datagrams), isRunning() = pending, cancel() result, one well-formed query per server"
+                   % ("" if quick else "; every pair of bytes replaced by those values", tail_rule, ldepth),
+              assumptions=["a zero-length datagram is not delivered (UdpSocket::onSocketEvent forwards rsize > 0 only)",
+                           "readings L1-L6 (common.h): class not examined, RDLENGTH of A/CNAME not cross-checked, label bytes 0x40-0xbf taken as lengths, labels compared up to a NUL, trailing dots ignored, "
+                           "owner/question names only framed - so laxness of that kind is not reported as a violation",
+                           "a duplicated server-failure reply that is counted as another server's failure, and a reply whose question names another domain, are tolerated and recorded as outcomes (the statement does not define them)",
+                           "replies are injected at onUdpRecv, outgoing datagrams are captured at sendto(); the kernel UDP path is not exercised",
+                           "clock reads are interposed at clock_gettime/gettimeofday/time; all events happen at whole virtual seconds",
+                           "stack painting sees an uninitialised read only if the two paints lead to different observable results"])
